@@ -345,12 +345,13 @@ example : ∃ v, Model.rintFallback f64 0xC3E0000000000001 = .ok v := rintFallba
 /-- sqrt (the sqrt builtin on both paths under GCC since 55139da): the special-value ladder that constant
     evaluation runs in front of the builtin (`arg != arg or arg == +inf` ↦ arg, `arg < 0` ↦ NaN; GCC folds the builtin
     for the remaining arguments) agrees with the specification of the builtin — the correctly rounded root
-    `FSpec.sqrt` — for every pattern of every format; a NaN argument is returned unchanged. -/
-theorem sqrt_paths (f : Fmt) (b : Nat) (hb : b < 2 ^ f.width) :
+    `FSpec.sqrt` — for every pattern of every standard format (`Std f`; false for the degenerate `ebits = 0`, where −0
+    is also an infinity); a NaN argument is returned unchanged. -/
+theorem sqrt_paths (f : Fmt) (h : Std f) (b : Nat) (hb : b < 2 ^ f.width) :
     (f.isNaN b = false → Model.sqrtCt f b = FSpec.sqrt f b) ∧ (f.isNaN b = true → Model.sqrtCt f b = b) :=
-  FmaSqrt.sqrtCt_eq f b hb
-example : Model.sqrtCt f32 0x0da24260 = FSpec.sqrt f32 0x0da24260 := (sqrt_paths f32 _ (by decide)).1 (by decide)
-example : Model.sqrtCt f32 0xff800000 = FSpec.sqrt f32 0xff800000 := (sqrt_paths f32 _ (by decide)).1 (by decide)
+  FmaSqrt.sqrtCt_eq f h b hb
+example : Model.sqrtCt f32 0x0da24260 = FSpec.sqrt f32 0x0da24260 := (sqrt_paths f32 std_f32 _ (by decide)).1 (by decide)
+example : Model.sqrtCt f32 0xff800000 = FSpec.sqrt f32 0xff800000 := (sqrt_paths f32 std_f32 _ (by decide)).1 (by decide)
 
 /-! ## 3. the known divergence: fma in constant evaluation (F-c13-fma-constexpr-unfolded)
 
